@@ -154,6 +154,8 @@ func c26Selectors() (sel []string) {
 var c26SelMods = []string{"", " offset 5m", " offset -5m", " offset 1s1ms", " offset 1h30m", " offset 5", " offset 1.5", " offset +5m",
 	" offset 0", " offset 0s", " offset -0",
 	" @ 1", " @ -1.5", " @ 0", " @ 1.0005", " @ 4492372648465.894", " @ 1e15", " @ 5m", " @ 0x10", " @ +1", " @ start()", " @ end()",
+" @ -0.001", " @ -0.5", " @ -0.999", " @ -1.001", " @ -0.25", " @ 0.001", " @ 0.5", " @ 1.5", " @ 0.999", " @ -1", " @ -1000.001",
+	" @ 9223372036854775.807", " @ -9223372036854775.808", " @ 9223372036854.775", " @ -9223372036854.775", " @ -0.5 offset 5m", " offset -5m @ -0.25", " @ -0.001 offset -1ms",
 	" @ 1 offset 5m", " offset 5m @ 1", " @ start() offset -1m", " offset -1m @ end()",
 	" anchored", " smoothed", " anchored offset 5m", " offset 5m anchored", " @ 1 smoothed", " smoothed @ 1", " anchored smoothed",
 	" @ 1 anchored offset 5m", " offset step()", " offset -step()", " offset +step()", " offset (5m + 1)", " offset -(5m)", " offset (5m)",
@@ -163,7 +165,7 @@ var c26SelMods = []string{"", " offset 5m", " offset -5m", " offset 1s1ms", " of
 
 var c26MatRanges = []string{"5m", "1h30m", "5", "1.5", "1s1ms", "0x10", "step()", "range()", "5m + 1", "(5m)", "(5)", "-5m", "0", "0s", "292y"}
 
-var c26MatMods = []string{"", " offset 5m", " offset -5m", " @ 1", " @ start()", " anchored", " smoothed", " anchored @ 1 offset -5m",
+var c26MatMods = []string{"", " offset 5m", " offset -5m", " @ 1", " @ -0.25", " @ -0.001", " @ -0.999 offset 5m", " @ 0.5", " @ -1.001", " offset -5m @ -0.5", " @ -9223372036854.775", " @ start()", " anchored", " smoothed", " anchored @ 1 offset -5m",
 	" @ 1 smoothed", " offset step()", " offset 5m @ 1", " smoothed offset -(5m) @ end()"}
 
 func c26ScalarLeaves() []string {
@@ -434,12 +436,13 @@ func (g *c26Gen) composites(fresh, old c26Sets, full, wide bool, funcs []c26Func
 	for _, x := range fresh.all() {
 		ranges := []string{"5m"}
 		steps := []string{"", "1m"}
-		smods := []string{"", " offset 5m", " @ 1"}
+		smods := []string{"", " offset 5m", " @ 1", " @ -0.001", " @ -0.5 offset 5m"}
 		if full && (x == fresh.V[0] || x == fresh.S[0]) {
 			ranges = []string{"5m", "step()", "5m + 1", "(5m)", "5", "1s1ms", "-5m", "0"}
 			steps = []string{"", "1m", "step()", "1m * 2", "30", "(30)", "1s1ms", "-1m", "0"}
 			smods = []string{"", " offset 5m", " offset -5m", " @ 1", " @ end() offset -1m", " offset step()", " offset 1m @ start()", " anchored", " smoothed",
-				" offset 5m offset 5m", " @ 1 @ 1", " offset (1m + 1)", " @ 0.0005"}
+				" offset 5m offset 5m", " @ 1 @ 1", " offset (1m + 1)", " @ 0.0005",
+				" @ -0.001", " @ -0.5", " @ -0.999", " @ -1.001", " @ 0.001", " @ 1.5", " @ -0.25 offset -5m", " offset 5m @ -0.75", " @ -9223372036854.775", " @ 9223372036854775.807"}
 		}
 		for _, rg := range ranges {
 			for _, st := range steps {
@@ -448,7 +451,7 @@ func (g *c26Gen) composites(fresh, old c26Sets, full, wide bool, funcs []c26Func
 				}
 			}
 		}
-		for _, m := range []string{" offset 5m", " @ 1", " anchored", " smoothed", "[5m]", " @ start()", " offset -step()"} {
+		for _, m := range []string{" offset 5m", " @ 1", " @ -0.5", " anchored", " smoothed", "[5m]", " @ start()", " offset -step()"} {
 			g.add(x+m, "("+x+")"+m)
 		}
 	}
@@ -503,9 +506,9 @@ func c26Generate(thorough bool) *c26Gen {
 	}
 
 	core0 := c26Sets{
-		V: []string{"foo", `bar{a="b"}`, "foo offset 5m", "up @ end()"},
+		V: []string{"foo", `bar{a="b"}`, "foo offset 5m", "up @ end()", "up @ -0.5"},
 		S: []string{"1", "-2", "5m", "time()"},
-		M: []string{"foo[5m]", "foo[5m] offset 5m", `bar{a="b"}[1h]`},
+		M: []string{"foo[5m]", "foo[5m] offset 5m", `bar{a="b"}[1h]`, "foo[5m] @ -0.25"},
 		T: []string{`"a"`, `"b\"c"`},
 	}
 	funcs := c26FuncTable()
